@@ -394,12 +394,24 @@ def run(ctx) -> None:
     r5.instance(ws.short)
     cmps = [c for c in ast.walk(ws.node) if isinstance(c, ast.Compare) and norm(c.left) == "select_bands"
             and isinstance(c.ops[0], (ast.Lt, ast.LtE, ast.Gt, ast.GtE))]
-    sig = sorted((type(c.ops[0]).__name__, norm(c.comparators[0])) for c in cmps)
+    p1_, p2_ = (ws.params + ["ib1", "ib2"])[:2]
+    cmps = [c for c in ast.walk(ws.node) if isinstance(c, ast.Compare) and len(c.ops) == 1 and isinstance(c.ops[0], (ast.Lt, ast.LtE, ast.Gt, ast.GtE))
+            and ((norm(c.left) == ws.params[2] and norm(c.comparators[0]) in (p1_, p2_)) or (norm(c.comparators[0]) == ws.params[2] and norm(c.left) in (p1_, p2_)))] \
+        if len(ws.params) >= 3 else cmps
+    flip_ = {"Lt": "Gt", "LtE": "GtE", "Gt": "Lt", "GtE": "LtE"}
+    sig = sorted((type(c.ops[0]).__name__, "ib1" if norm(c.comparators[0]) == p1_ else "ib2") if norm(c.left) not in (p1_, p2_) else
+                 (flip_[type(c.ops[0]).__name__], "ib1" if norm(c.left) == p1_ else "ib2") for c in cmps)
     r5.check(sig == [("GtE", "ib1"), ("Lt", "ib2")], "selection weight counts bands with ib1 ≤ b < ib2", ws,
              cmps[0] if cmps else ws.node,
              f"weight_select_bands counts selected bands with {sig}: a selected band next to a group [ib1, ib2) is counted in that "
              f"group too (band-selected results are no longer additive)")
-    r5.check("/ (ib2 - ib1)" in norm(ws.node), "weight = fraction of the group's bands that are selected", ws, ws.node,
+    WS_ = Sem(idx, ws)
+    okn_ = False
+    for r_ in [x for x in stmts(ws.node) if isinstance(x, ast.Return) and x.value is not None]:
+        rv_ = WS_.resolve(r_.value, WS_.cfg.node(r_))
+        if isinstance(rv_, ast.BinOp) and isinstance(rv_.op, ast.Div) and norm(rv_.right).replace(" ", "") in (f"{p2_}-{p1_}", f"({p2_}-{p1_})", f"float({p2_}-{p1_})"):
+            okn_ = True
+    r5.check(okn_, "weight = fraction of the group's bands that are selected", ws, ws.node,
              "selection weight is not normalised by the group size", stmt="/(ib2-ib1)")
     gk = idx.function(DK, "Data_K.get_bands_in_range_groups_ik")
     r5.instance(gk.short)
